@@ -1,7 +1,7 @@
 use std::fmt;
 use std::path::{Path, PathBuf};
 
-use futures::stream::{FuturesUnordered, StreamExt};
+use futures::stream::{FuturesOrdered, StreamExt};
 use ignore::{
 	gitignore::{Gitignore, GitignoreBuilder, Glob},
 	Match,
@@ -88,7 +88,7 @@ impl IgnoreFilter {
 					})?;
 				Ok((file.clone(), content))
 			})
-			.collect::<FuturesUnordered<_>>()
+			.collect::<FuturesOrdered<_>>()
 			.collect::<Vec<_>>()
 			.await
 			.into_iter()
